@@ -107,9 +107,9 @@ static bool stream_bound(int s)
       }
       /* the parent's end is identified through the pipe object: its descriptor may
        * already have been closed by the child's close-all loop */
-      return vp_of_kind[o] == (s == 0 ? VP_K_PIPE_R : VP_K_PIPE_W) && parent_end >= 0 &&
-             parent_end < VP_NFD && g_snap.open[parent_end] == false &&
-             g_parent_end_pipe[s] >= 0 && g_parent_end_pipe[s] == vp_of_pipe[o];
+      (void) parent_end; /* in fork mode the handle's fields are already reset in the child */
+      return vp_of_kind[o] == (s == 0 ? VP_K_PIPE_R : VP_K_PIPE_W) && g_parent_end_pipe[s] >= 0 &&
+             g_parent_end_pipe[s] == vp_of_pipe[o];
     case REPROC_REDIRECT_PARENT:
       if (vp_std_present[s]) {
         return g_snap.open[s] && vp_fd_ofd[s] == g_snap.ofd[s];
@@ -155,6 +155,8 @@ static void child_state_checks(bool at_exec)
   if (at_exec) {
     VP_ASSERT(C11, survivors == 1,
               "a descriptor other than 0,1,2 and the exit handle is inherited by the program");
+    VP_ASSERT(C20, survivors == 1,
+              "a descriptor that may belong to another thread's child is inherited (its stdin would never see end-of-file)");
     bool is_exit = exit_fd >= 0 && vp_of_kind[vp_fd_ofd[exit_fd]] == VP_K_PIPE_W &&
                    g_parent_end_pipe[3] >= 0 &&
                    vp_of_pipe[vp_fd_ofd[exit_fd]] == g_parent_end_pipe[3];
@@ -303,6 +305,8 @@ void harness(void)
   uint64_t m_lo = (uint64_t) (unsigned) vp_choice(0, INT_MAX);
   vp_sigmask = (m_hi << 31) ^ m_lo;
   g_mask0 = vp_sigmask;
+  vp_sigmask0 = vp_sigmask;
+  vp_sigmask0_valid = true;
 
   /* ---- options ---- */
   reproc_options o = { 0 };
@@ -377,7 +381,8 @@ void harness(void)
     child_state_checks(false);
     VP_ASSERT(C03, (vp_chdir_calls == 1) == (o.working_directory != NULL),
               "fork mode: working directory changed (or not) against the options");
-    VP_ASSERT(C15, reproc_destroy(p) == NULL, "destroy in the forked child returns non-null");
+    reproc_t *dc = reproc_destroy(p);
+    VP_ASSERT(C15, dc == NULL, "destroy in the forked child returns non-null");
     VP_ASSERT(C15, vp_kill_calls == 0 && vp_waitpid_calls == 0,
               "destroy in the forked child signals or reaps");
     VP_COVER(1, "fork mode: returned 0 in the child");
@@ -412,7 +417,8 @@ void harness(void)
     VP_ASSERT(C04, vp_nchild == 1 && vp_c_state[0] == VP_C_FORKED && vp_c_resolved[0] >= 1 &&
                        vp_c_start_errno[0] == 0,
               "start reports success although the child's launch failed or was never confirmed");
-    VP_ASSERT(C04, p->handle == vp_c_pid[0] && p->handle > 0 && reproc_pid(p) == p->handle,
+    int pid_api = reproc_pid(p);
+    VP_ASSERT(C04, p->handle == vp_c_pid[0] && p->handle > 0 && pid_api == p->handle,
               "start reports success with a pid that is not the forked child's");
     VP_ASSERT(C06, p->handle == vp_c_pid[0] && p->handle > 0,
               "running handle refers to a pid other than its own child");
